@@ -16,7 +16,7 @@ RULE = ('Hypothesis: a valid stream of 1..3 write-request frames (distinct cells
         'serial server handler: every changed cell must be explained by a well-formed write inside a checksum-valid frame. '
         'Sweeps: every single-bit flip (thorough: and double flips) of frames on each framing, every single-character '
         'substitution (all 256 values) of ASCII frames. Non-trivial: the mutated stream differs from the original inside a '
-        'frame; distinct by SHA-1.')
+        'frame; distinct by SHA-1. Frames of every message type in both decoder directions are used as well; on TCP a fixed-size message delivered from a frame whose MBAP length covers another number of bytes is unjustified (sweep of all length-field corruptions of every fixed-size kind with bytes behind the frame).')
 ASSUMPTIONS = ['one-directional by design: losing a valid neighbour of a corrupted frame is C11\'s business',
                'the caller is a server hosting the unit (unit=[uid], single=False) that resets the framer when the receive call raises, as the serial handler does']
 BUDGET = {'quick': 6000, 'thorough': 15000}
